@@ -1552,7 +1552,7 @@ void UniCompiler::adds_u8(const Gp& dst, const Gp& src1, const Gp& src2) {
   }
   else {
     cc->mov(dst, src1);
-    cc->add(dst, src2);
+    cc->add(dst.r8(), src2.r8());
   }
 
   Gp u8_msk = new_gp32("@u8_msk");
